@@ -21,7 +21,9 @@ import base64
 import io
 import json
 import math
+import os
 import random
+import time
 import subprocess
 import tarfile
 import zipfile
@@ -44,11 +46,14 @@ SENSITIVITY = {"UncappedNonEmptyRepeat": "Inv_Bounded", "ExtractAllIgnoresFilter
                "UncappedSpaceCount": "Inv_Bounded", "DenseGridFromSparseCells": "Inv_Bounded",
                "XrefPrevLoop": "Inv_Bounded", "FlipCompare": "Inv_Boundary",
                "GuardAfterLoad": "Inv_NoLoadBeforeGuard", "DecompressBeforeCheck": "Inv_SkippedNeverDecompressed",
-               "NoEmptyCap": "Inv_Bounded", "PlainXmlParser": "Inv_Bounded"}
+               "NoEmptyCap": "Inv_Bounded", "PlainXmlParser": "Inv_EntitiesNotExpanded"}
 INVS = ["Inv_NoLoadBeforeGuard", "Inv_Boundary", "Inv_SkippedNeverDecompressed", "Inv_MemberBoundary",
-        "Inv_Bounded", "Inv_Progress"]
+        "Inv_Bounded", "Inv_EntitiesNotExpanded", "Inv_Progress"]
 MARKERS = {"laughs": ["hahaha"], "quadratic": ["qqqqqqqqqq"], "parameter": ["zzzzzzzzzz"], "external": []}
 MAX_HOSTILE = 256 * 1024      # encoded size of any hostile file (most are < 8 KiB; OLE fixtures up to 192 KiB)
+
+
+PART_A_DEVS = {"ExtractAllIgnoresFilter", "FlipCompare", "GuardAfterLoad", "DecompressBeforeCheck"}
 
 
 def _gen_cfg(devs, thorough, invs, parts=("a", "b")):
@@ -129,14 +134,13 @@ def _build_limit_scenarios(ctx, scns, wd: Path, rng):
                     f.truncate(s["size"])                  # sparse: no data blocks
                 else:
                     f.write(b"a" * s["size"])
-            mx = s["max"]
-            if mx == 100 * MiB and rng.random() < 0.5:
-                mx = None                                  # the documented default
-            out.append({"id": idx, "scn": "read_file", "path": str(p), "max": mx, "route": "txt", "stub": big})
+            out.append({"sidx": idx, "scn": "read_file", "path": str(p), "max": s["max"], "route": "txt", "stub": big})
+            if s["max"] == 100 * MiB:                      # the documented default, not passed at all
+                out.append({"sidx": idx, "scn": "read_file", "path": str(p), "max": None, "route": "txt", "stub": big})
         elif s["k"] == "sevenz_size":
-            valid = rng.random() < 0.5
-            out.append({"id": idx, "scn": "sevenz_size", "size": s["size"], "valid": valid,
-                        "archive": base64.b64encode(base7z).decode()})
+            for valid in (True, False):                    # a valid padded archive / signature + zeros
+                out.append({"sidx": idx, "scn": "sevenz_size", "size": s["size"], "valid": valid,
+                            "archive": base64.b64encode(base7z).decode()})
         elif s["k"] == "members":
             sizes = [m["size"] for m in s["members"]]
             small = s["lim"] <= 65536
@@ -157,11 +161,13 @@ def _build_limit_scenarios(ctx, scns, wd: Path, rng):
             f.write_bytes(data)
             # the default limit is used unconfigured; any other limit goes through the public configuration call
             configure = 0 if s["lim"] == 10 * MiB else s["lim"]
-            out.append({"id": idx, "scn": "members", "kind": s["kind"], "ext": ext, "archive_file": str(f),
+            out.append({"sidx": idx, "scn": "members", "kind": s["kind"], "ext": ext, "archive_file": str(f),
                         "configure": configure, "members": [{"name": f"m{i}.txt", "size": n}
                                                             for i, n in enumerate(sizes, start=1)]})
         else:
             raise MachineryError(f"unknown scenario kind {s['k']}")
+    for n, w in enumerate(out):
+        w["id"] = n
     return out
 
 
@@ -217,17 +223,19 @@ def _project_outcome(o: str) -> str:
 # ------------------------------------------------------------------------------------ the check
 def run(ctx):
     ev, v = ctx.ev, ctx.v
+    T0 = time.time()
     rng = random.Random(ctx.seed * 7919 + 12)
     open_devs = sorted(d for d, fid in FINDING_OF.items() if v.open_finding(fid))
 
     # ---- 1. TLC: theorem on the reference design + both dumps (reference / as-built)
     dump_ref, dump_ab = ctx.scratch / "gen-ref.dump", ctx.scratch / "gen-ab.dump"
-    with ThreadPoolExecutor(max_workers=8) as ex:
+    with ThreadPoolExecutor(max_workers=14) as ex:
         f_ref = ex.submit(run_tlc, "LimitsGen", _gen_cfg([], ctx.thorough, INVS), scratch=ctx.scratch, dump=dump_ref,
                           workers=2, timeout=900)
         f_ab = ex.submit(run_tlc, "LimitsGen", _gen_cfg(open_devs, ctx.thorough, []), scratch=ctx.scratch, dump=dump_ab,
                          workers=2, timeout=900)
-        sens = {d: ex.submit(run_tlc, "LimitsGen", _gen_cfg([d], True, [inv]), scratch=ctx.scratch, workers=1,
+        sens = {d: ex.submit(run_tlc, "LimitsGen", _gen_cfg([d], ctx.thorough, [inv], parts=("a",) if d in PART_A_DEVS else ("b",)),
+                             scratch=ctx.scratch, workers=1,
                              timeout=900, expect_fail=True) for d, inv in sorted(SENSITIVITY.items())}
         r_ref, r_ab = f_ref.result(), f_ab.result()
         ev.tlc("LimitsGen: reference design, all scenarios x all invariants", r_ref)
@@ -249,6 +257,7 @@ def run(ctx):
     if set(ref_final) != set(ab_final):
         raise MachineryError("reference and as-built enumerations disagree on the scenario set")
     keys = sorted(ref_final)
+    ctx.log(f"t={time.time()-T0:.0f}s TLC done")
     ctx.log(f"{len(keys)} scenarios enumerated ({r_ref.distinct} states); open deviations: {open_devs}")
 
     limit_keys = [k for k in keys if ref_final[k]["scn"]["k"] != "cost"]
@@ -294,24 +303,32 @@ def run(ctx):
         f = ctx.scratch / f"hostile_{n}.{b['ext'].replace('.', '_')}"
         f.write_bytes(b["data"])
         markers = MARKERS.get(s["pos"].split("@")[0], []) if s["c"] == "xml_entity" else []
+        heavy = ab_final[k]["cls"] == "exceeds"
+        # a case the as-built model expects to exceed is cut off earlier (it only has to show that it exceeds);
+        # every other case gets the full budget
         cases.append({"id": n, "key": k, "ext": b["ext"], "file": str(f), "usize": b["usize"], "len": len(b["data"]),
-                      "markers": markers, "heavy": ab_final[k]["cls"] == "exceeds"})
-    cjobs = [{"cases": part, "wall": 150} for part in _split(cases, 10, lambda c: 30 if c["heavy"] else 1)]
+                      "markers": markers, "heavy": heavy, "cpu": (30 if ctx.thorough else 12) if heavy else 30})
+    ctx.log(f"t={time.time()-T0:.0f}s files built")
+    cjobs = [{"cases": part, "wall": 150} for part in _split(cases, 10, lambda c: c["cpu"] if c["heavy"] else 1)]
     ctx.log(f"part (a): {len(wscn)} scenarios in {len(ljobs)} workers; part (b): {len(cases)} hostile files "
             f"({sum(c['heavy'] for c in cases)} expected to exceed, {skipped_either} undecidable cases skipped) "
             f"in {len(cjobs)} workers")
     with ThreadPoolExecutor(max_workers=2) as ex:
         fl = ex.submit(_run_workers, ctx, "limits", ljobs, "lim", 1200)
         fc = ex.submit(_run_workers, ctx, "cost", cjobs, "cost", 1500)
-        lres, cres = fl.result(), fc.result()
+        lres = fl.result()
+        ctx.log(f"t={time.time()-T0:.0f}s limit workers done")
+        cres = fc.result()
+    ctx.log(f"t={time.time()-T0:.0f}s cost workers done")
 
     # ---- 3. traces
     traces, meta = [], []
     consts_seen = None
     for r in sorted(lres, key=lambda r: r["id"]):
-        s, w = scns[r["id"]], wscn[r["id"]]
+        w = wscn[r["id"]]
+        s, skey = scns[w["sidx"]], limit_keys[w["sidx"]]
         if "ev" not in r:
-            raise MachineryError(f"limit scenario {limit_keys[r['id']]} produced no report: {r}")
+            raise MachineryError(f"limit scenario {skey} produced no report: {r}")
         consts_seen = r.get("consts") or consts_seen
         evs = []
         for e in r["ev"]:
@@ -323,8 +340,7 @@ def run(ctx):
         if s["k"] == "members" and r.get("eff") != s["lim"]:
             raise MachineryError(f"could not configure the per-member limit {s['lim']} (effective {r.get('eff')})")
         traces.append({"id": f"a:{r['id']}", "hdr": _hdr(s, valid=w.get("valid", False)), "ev": evs})
-        meta.append({"part": "a", "key": limit_keys[r["id"]], "gov": ref_final[limit_keys[r["id"]]]["gov"], "w": w,
-                     "raw": r})
+        meta.append({"part": "a", "key": skey, "gov": ref_final[skey]["gov"], "w": w, "raw": r})
     if consts_seen:
         want = {"MAX_MEMORY_SIZE": 10 * MiB, "MAX_ARCHIVE_FILE_SIZE": 50 * MiB, "MAX_7Z_FILE_SIZE": 100 * MiB}
         if consts_seen != want:
@@ -341,10 +357,13 @@ def run(ctx):
         traces.append({"id": f"b:{r['id']}", "hdr": _hdr(s, skib=skib), "ev": [e]})
         meta.append({"part": "b", "key": c["key"], "gov": ref_final[c["key"]]["gov"], "w": c, "raw": r})
 
+    if os.environ.get("C12_DEBUG"):
+        Path(os.environ["C12_DEBUG"]).write_text(json.dumps({"traces": traces, "meta": meta}, default=repr))
     tr_cfg = "SPECIFICATION TraceSpec\nCONSTRAINT TraceAccept\nCONSTANTS Deviations = {}\n"
     br = validate("LimitsTrace", tr_cfg, traces, scratch=ctx.scratch, parallel=8, min_chunk=40)
     ev.tlc_counts("LimitsTrace: recorded traces vs reference design (invariants conjoined)", br.distinct, br.states, br.wall_s)
     rejected = [i for i, tv in enumerate(br.verdicts) if not tv.accepted]
+    ctx.log(f"t={time.time()-T0:.0f}s reference validation done, {len(rejected)} rejected")
     ab_ok = {}
     if rejected and open_devs:
         ab_cfg = f"SPECIFICATION TraceSpec\nCONSTRAINT TraceAccept\nCONSTANTS Deviations = {to_tla(set(open_devs))}\n"
@@ -352,6 +371,7 @@ def run(ctx):
         ev.tlc_counts("LimitsTrace: rejected traces vs as-built model", br2.distinct, br2.states, br2.wall_s)
         ab_ok = {i: tv.accepted for i, tv in zip(rejected, br2.verdicts)}
 
+    ctx.log(f"t={time.time()-T0:.0f}s as-built validation done")
     # ---- 4. verdicts
     for i, (t, m, tv) in enumerate(zip(traces, meta, br.verdicts)):
         s = ref_final[m["key"]]["scn"]
